@@ -70,7 +70,7 @@ pub struct Observed {
 
 fn map_label(arr: &Arrangement, chunks: &[String], d: &Diagnostic) -> Option<(String, usize, usize, usize)> {
     let file = d.primary.file_id.to_string();
-    let fi: usize = file.strip_prefix('f')?.strip_suffix(".st")?.parse().ok()?;
+    let fi: usize = (0..arr.files.len()).find(|&i| crate::drive::set_file_name(i) == file)?;
     let mut off = 0;
     for &c in arr.files.get(fi)? {
         let len = chunks[c].len();
@@ -316,6 +316,88 @@ fn check_tape(tape: &[u8], gates: &Gates, stats: &mut Stats, counting: bool, cli
     Ok(())
 }
 
+/// Scope-leak grid (exhaustive, deterministic): a name that is declared in ONE declaration (as a
+/// variable of any class, or as a function block instance) is used in ANOTHER declaration that
+/// does not declare it.  owner kind x variable class x (plain variable | instance) x user kind;
+/// every permutation of the declarations in one file and every partition into files must be
+/// rejected with the rule's code - whatever was analysed before must not leak into the next scope.
+fn leak_grid_cells() -> Vec<(String, Vec<String>, &'static str)> {
+    let mut out = vec![];
+    let tfb = "FUNCTION_BLOCK lk_timer\nVAR_INPUT\nlk_in : INT;\nEND_VAR\nVAR\nlk_n : INT;\nEND_VAR\nlk_n := lk_in;\nEND_FUNCTION_BLOCK\n".to_string();
+    for owner in ["FUNCTION", "FUNCTION_BLOCK", "PROGRAM"] {
+        for class in ["VAR", "VAR_INPUT", "VAR_OUTPUT", "VAR_IN_OUT", "VAR CONSTANT", "VAR RETAIN"] {
+            for instance in [false, true] {
+                if instance && class == "VAR CONSTANT" {
+                    continue;
+                }
+                let decl = if instance {
+                    "lk_leak : lk_timer;".to_string()
+                } else if class == "VAR CONSTANT" {
+                    "lk_leak : INT := 1;".to_string()
+                } else {
+                    "lk_leak : INT;".to_string()
+                };
+                let own_use = if instance { "lk_leak(lk_in := 1);\n" } else { "" };
+                let owner_text = match owner {
+                    "FUNCTION" => format!("FUNCTION lk_owner : INT\n{}\n{}\nEND_VAR\n{}lk_owner := 1;\nEND_FUNCTION\n", class, decl, own_use),
+                    "FUNCTION_BLOCK" => format!("FUNCTION_BLOCK lk_owner\n{}\n{}\nEND_VAR\n{}END_FUNCTION_BLOCK\n", class, decl, own_use),
+                    _ => format!("PROGRAM lk_owner\n{}\n{}\nEND_VAR\n{}END_PROGRAM\n", class, decl, own_use),
+                };
+                for user in ["FUNCTION", "FUNCTION_BLOCK", "PROGRAM"] {
+                    let stmt = if instance { "lk_leak(lk_in := 2);\n" } else { "lk_y := lk_leak;\n" };
+                    let user_text = match user {
+                        "FUNCTION" => format!("FUNCTION lk_user : INT\nVAR\nlk_y : INT;\nEND_VAR\n{}lk_user := 2;\nEND_FUNCTION\n", stmt),
+                        "FUNCTION_BLOCK" => format!("FUNCTION_BLOCK lk_user\nVAR\nlk_y : INT;\nEND_VAR\n{}END_FUNCTION_BLOCK\n", stmt),
+                        _ => format!("PROGRAM lk_user\nVAR\nlk_y : INT;\nEND_VAR\n{}END_PROGRAM\n", stmt),
+                    };
+                    let mut chunks = vec![owner_text.clone(), user_text];
+                    if instance {
+                        chunks.push(tfb.clone());
+                    }
+                    out.push((format!("{} {} {} used in {}", owner, class, if instance { "instance" } else { "variable" }, user), chunks, if instance { "P0021" } else { "P0015" }));
+                }
+            }
+        }
+    }
+    out
+}
+
+fn run_leak_grid(rep: &mut Report) {
+    let cells = leak_grid_cells();
+    let n = cells.len();
+    let out = run_items(&cells, 8, |(name, chunks, code), stats| {
+        let k = chunks.len();
+        // precondition: the owner (with the function block type) is acceptable on its own, else the
+        // cell says nothing about leaks (counted)
+        let owner_idx: Vec<usize> = (0..k).filter(|&i| i != 1).collect();
+        let owner_only = Arrangement { files: vec![owner_idx] };
+        let base = observe_analyze(&owner_only, chunks).map_err(|(kd, d)| Failure::new("leak-grid", &kd, d, json!({"cell": name, "chunks": chunks})))?;
+        if !base.ok {
+            stats.case(false, hash_str(name));
+            stats.class("leak-grid.owner-not-accepted(skipped)");
+            return Ok(());
+        }
+        let mut arrangements: Vec<Arrangement> = permutations(k).into_iter().map(|p| Arrangement { files: vec![p] }).collect();
+        arrangements.extend(partitions(k));
+        for arr in &arrangements {
+            let o = observe_analyze(arr, chunks).map_err(|(kd, d)| Failure::new("leak-grid", &kd, d, json!({"cell": name, "chunks": chunks})))?;
+            stats.case(true, hash_str(&format!("{}|{}", name, arr.describe())));
+            stats.class("leak-grid.arrangement");
+            if o.ok || !o.codes.iter().any(|c| c == code) {
+                return Err(Failure::new(
+                    "leak-grid",
+                    "name-leaks-between-scopes",
+                    format!("{}: arrangement {} gives ok={} codes {:?}; {} is required in every arrangement (the name is declared in another declaration only)", name, arr.describe(), o.ok, o.codes, code),
+                    json!({"cell": name, "chunks": chunks, "arrangement": arr.files, "files": arr.texts(chunks)}),
+                ));
+            }
+        }
+        Ok(())
+    });
+    rep.add(out);
+    rep.extra.insert("leak_grid_cells".into(), json!(n));
+}
+
 fn fnv_of(t: &[u8]) -> u64 {
     crate::tape::fnv(t)
 }
@@ -327,10 +409,11 @@ pub fn run(ctx: &Ctx) -> i32 {
         ctx.tier,
         ctx.seed,
         "exploration",
-        "units of <= 5 top-level declarations with cross references (valid, one planted fault, or one declaration written twice), one chunk per declaration: ALL permutations of the chunks, ALL set partitions into <= 3 files x ALL file orders, plus random permuted partitions; verdict (and for single-fault units the code multiset and every mappable primary label as (code, chunk, offset in chunk, length)) must equal the canonical single file. analyze() with explicit library order decides; Project::semantic() on fresh in-memory projects (4 per sampled arrangement: fresh HashMap seeds) and `ironplcc check` in fresh processes with permuted arguments are sampled. Non-trivial: >= 3 declarations, >= 2 reference edges, arrangement != canonical; distinct by (arrangement, chunks).",
+        "units of <= 5 top-level declarations with cross references (valid, one planted fault, or one declaration written twice), one chunk per declaration: ALL permutations of the chunks, ALL set partitions into <= 3 files x ALL file orders, plus random permuted partitions; verdict (and for single-fault units the code multiset and every mappable primary label as (code, chunk, offset in chunk, length)) must equal the canonical single file. analyze() with explicit library order decides; Project::semantic() on fresh in-memory projects (4 per sampled arrangement: fresh HashMap seeds) and `ironplcc check` in fresh processes with permuted arguments are sampled. Plus the exhaustive scope-leak grid: a name declared in one declaration (function / function block / program x 6 variable classes x plain variable / function block instance) and used in another one that does not declare it must be rejected (P0015 / P0021) in every permutation and partition. Non-trivial: >= 3 declarations, >= 2 reference edges, arrangement != canonical; distinct by (arrangement, chunks).",
     );
     let gates = ctx.gates_for("C06");
     let off = gates.off_list();
+    run_leak_grid(&mut rep);
     let cases = ctx.tier.pick(8_000, 150_000);
     let cli_budget = std::sync::atomic::AtomicI64::new(ctx.tier.pick(80, 2000));
     let out = run_tapes("C06", ctx.seed, ctx.threads, cases, 700, |tape, stats, counting| {
